@@ -55,19 +55,19 @@ BlindFactorW == << F("sc", "blind") >>
 
 \* ---- domain separation tags: api_id || suffix ---------------------------
 \* (key generation uses its own tag; "api" is the interface id of the call)
-H(dst, fields) == [dst |-> dst, fields |-> fields]
+HD(dst, fields) == [dst |-> dst, fields |-> fields]
 
 Hashes ==
-  [ keygen          |-> H("KEYGEN_DST_",                 KeyGenL),
-    map_msg         |-> H("MAP_MSG_TO_SCALAR_AS_HASH_",  MapMsgL),
-    gen_seed        |-> H("SIG_GENERATOR_SEED_",         GenSeedL),
-    gen_iter        |-> H("SIG_GENERATOR_SEED_",         GenIterL),
-    gen_point       |-> H("SIG_GENERATOR_DST_",          GenPointL),
-    domain          |-> H("H2S_",                        DomainL),
-    sig_e           |-> H("H2S_",                        SigEL),
-    challenge       |-> H("H2S_",                        ChallengeL),
-    blind_challenge |-> H("H2S_",                        BlindChallengeL),
-    blind_sig_e     |-> H("H2S_",                        BlindSigEL) ]
+  [ keygen          |-> HD("KEYGEN_DST_",                 KeyGenL),
+    map_msg         |-> HD("MAP_MSG_TO_SCALAR_AS_HASH_",  MapMsgL),
+    gen_seed        |-> HD("SIG_GENERATOR_SEED_",         GenSeedL),
+    gen_iter        |-> HD("SIG_GENERATOR_SEED_",         GenIterL),
+    gen_point       |-> HD("SIG_GENERATOR_DST_",          GenPointL),
+    domain          |-> HD("H2S_",                        DomainL),
+    sig_e           |-> HD("H2S_",                        SigEL),
+    challenge       |-> HD("H2S_",                        ChallengeL),
+    blind_challenge |-> HD("H2S_",                        BlindChallengeL),
+    blind_sig_e     |-> HD("H2S_",                        BlindSigEL) ]
 
 Wires ==
   [ signature |-> SigW, proof |-> ProofW, commitment |-> CommitW,
@@ -82,7 +82,7 @@ ApiSuffix   == "H2G_HM2S_"
 \* generators of the committed-message part use "BLIND_" || api_id(suite, blind)
 BlindGenPrefix == "BLIND_"
 
-Export == [ hashes |-> Hashes, wires |-> Wires, suite_id |-> SuiteId,
+LayoutExport == [ hashes |-> Hashes, wires |-> Wires, suite_id |-> SuiteId,
             iface_prefix |-> IfacePrefix, api_suffix |-> ApiSuffix,
             blind_gen_prefix |-> BlindGenPrefix ]
 =============================================================================
